@@ -243,6 +243,10 @@ package router
 //@             && (nEcs == 1 ==> ptrOf(arg0.Additionals[0], dnsmsg.RawResource).Data == gecs) && (nEcs == 0 ==> ptrOf(arg0.Additionals[0], dnsmsg.RawResource).Data == nil)
 //@   callsite Pack: [C02:plain-encoding] arg2 == false && arg3 == 0
 
+// the reply's question is the one that was asked: same type and class, same name up to ASCII case
+//@ spec func lowerB(c byte) byte = (c >= 'A' && c <= 'Z' ? c + 32 : c)
+//@ spec func sameQuestionCI(a *dnsmsg.Question, b *dnsmsg.Question) bool = a != nil && a.Type == b.Type && a.Class == b.Class && len(a.Name) == len(b.Name) && forall(k, 0, len(a.Name), lowerB(a.Name[k]) == lowerB(b.Name[k]))
+
 // forward: the packed query goes to exactly the given upstream, once; the reply comes back with every OPT record
 // removed (EDNS0 ends at the proxy).
 //@ func (r *router) forward(ctx context.Context, upstream *upstreamWrapper, q *dnsmsg.Question, remoteAddr netip.Addr) (resp *dnsmsg.Msg, err error)
@@ -256,6 +260,7 @@ package router
 //@   ensures err == nil ==> resp != nil && fresh(resp) && wfMsg(resp) && noOPT(resp.Additionals) && (resp.Additionals == nil || fresh(resp.Additionals)) && len(resp.Questions) <= 65535 && len(resp.Answers) <= 65535 && len(resp.Authorities) <= 65535 && len(resp.Additionals) <= 65535
 //@   ensures err != nil ==> resp == nil
 //@   ensures [C10:at-most-one-exchange] nEx <= 1
+//@   ensures [C03:reply-is-about-the-question-asked] err == nil ==> len(resp.Questions) <= 1 && (len(resp.Questions) == 1 ==> sameQuestionCI(resp.Questions[0], q))
 //@   callsite Exchange?: [C10:that-upstream-that-query] arg0 == upstream && arg1 == ctx && sameSlice(arg2, gw, 0, len(gw))
 
 //@ func (r *router) handleReq(ctx context.Context, q *dnsmsg.Question, rc *RequestContext)
